@@ -349,10 +349,14 @@ class BinaryGroup(GroupNode):
     has_boost = False
 
     def query(self, parser):
-        assert len(self.nodes) == 2
+        # An operand can be missing when it was itself an operator that has
+        # since been removed (e.g. "a ANDNOT REQUIRE b"); treat it like an
+        # operand that produced no query
+        nodes = self.nodes
+        assert len(nodes) <= 2
 
-        qa = self.nodes[0].query(parser)
-        qb = self.nodes[1].query(parser)
+        qa = nodes[0].query(parser) if len(nodes) > 0 else None
+        qb = nodes[1].query(parser) if len(nodes) > 1 else None
         if qa is None and qb is None:
             q = query.NullQuery
         elif qa is None:
